@@ -130,7 +130,7 @@ func lookAlike(t *rapid.T, s string) string {
 	return s
 }
 
-var dataAttrShapes = []string{"data-x", "data-;a", "data-;", "data-a;", "data-A", "data-xmlfoo", "data-xml", "data-", "data-data-x", "data-data-;", "data-\u00e9", "data-a\"b", "data-a'b", "data-a=b",
+var dataAttrShapes = []string{"data-\xff", "data-a\xc0\xa2", "data-\xe2\x80", "data-x", "data-;a", "data-;", "data-a;", "data-A", "data-xmlfoo", "data-xml", "data-", "data-data-x", "data-data-;", "data-\u00e9", "data-a\"b", "data-a'b", "data-a=b",
 	"data-x-y", "data-1", "data--", "data-a:b", "DATA-UP", "data-onclick", "data-a<b", "dataset-x", "data"}
 
 // hostile spellings of an attribute name that must not be mistaken for the name itself
@@ -474,10 +474,10 @@ func sortedKeys(m map[string]bool) []string {
 // ---------------------------------------------------------------------------------------------
 // style strings (also used inside soup attributes)
 
-var cssValuePool = []string{"pin\u212a", "wh\u0130te", "\u212aelvin", "lin\u212a", "rgb(1,2,3\\29", "translate(1px\\29 ", "url(\\22https://example.com/x.png\\22)", "rgb(1,2,3\\29; width: 1px", "calc(1px \\2b 1px\\29", "teal", "plum", "red", "RED", "blue", "re d", "left", "center", "10px", "10PX", "alpha beta", "underline", "underline overline", "1px 2px", "arial", "'times new roman'", "arial, sans-serif",
+var cssValuePool = []string{"translate(1px\\)", "rgb(1,2,3\\); width: 1px", "\"\\22\" \"\\22\"", "\"a\\29 b\"", "pin\u212a", "wh\u0130te", "\u212aelvin", "lin\u212a", "rgb(1,2,3\\29", "translate(1px\\29 ", "url(\\22https://example.com/x.png\\22)", "rgb(1,2,3\\29; width: 1px", "calc(1px \\2b 1px\\29", "teal", "plum", "red", "RED", "blue", "re d", "left", "center", "10px", "10PX", "alpha beta", "underline", "underline overline", "1px 2px", "arial", "'times new roman'", "arial, sans-serif",
 	"url(http://x.y/z.png)", "url(javascript:alert(1))", "expression(alert(1))", "0.5", "1.0", "", "a b c", "#fff", "rgb(1,2,3)", "x;y", "\"a;b\"", "url(a;b)", "f(a;b)", "a:b", "{a}", "[a]", "a}b",
 	"'abc", "a\\", "a\\\nb", "/*c*/red", "red/**/", "r/**/ed", "\u017folid", "\u017fOLID", "bloc\u212a", "da\u017fhed", "solid", "BLOCK", "dashed", "center\u0130", "underl\u0131ne", "URL(/x//*);position:fixed;x:(*/)", "url(/x/ /*); position: fixed; x: (*/)", "url(a \"); position: fixed; x: (\")", "\\75rl(/x//*);top:0;x:(*/)", "a\\3A", "b\\4A c", "c\\5F", "x\\2F\\2A y", "\\3B", "alph\\61\tbeta", "alph\\61\nbeta", "soli\\64\fred", "a\\62\tc", "red !important", "red!IMPORTANT", "red !important !important", "red !important!important", "red ! important", "red !IMPORTANT !important ", "red\\ ", "red \\ ", "1px\\ ", "<b>", "a&b", "@import", "!x", "1px", "none", "2em", "50%", "1px solid red", "1"}
-var cssEscPool = []string{`\72 `, `\72`, `\0072 `, `\000072`, `\000072 `, `\52 `, `\20 `, `\a `, `\9 `, `\d `, `\a0 `, `\5c `, `\5c`, `\10000 `, `\10ffff `, `\110000 `, `\d800 `, `\0 `, `\r`, `\z`, `\;`, `\"`, `\\`,
+var cssEscPool = []string{`\)`, `\(`, `\) `, `\\62 `, `\72 `, `\72`, `\0072 `, `\000072`, `\000072 `, `\52 `, `\20 `, `\a `, `\9 `, `\d `, `\a0 `, `\5c `, `\5c`, `\10000 `, `\10ffff `, `\110000 `, `\d800 `, `\0 `, `\r`, `\z`, `\;`, `\"`, `\\`,
 	`\ `, "\\72  ", "\\72 \t", "\\72\t", "\\72\n", "\\72\n ", "\\6c   ", "\\72\f ", `\3b `, `\3a `, `\28 `, `\2f\2a `, `\2a\2f `, `\2f* `, ` \2a/`, `\27 `, `\22 `, `\27`, `\22`, `\29 `, `\2c `, `\5C `, `\5C`, `\0005c`, `\3A `, `\3A`, `\2F `, `\7D `, `\4C `, `\00003B`, `\6C `, `\6F`, `\5B `, `\62`, `\6C`, `\000020`, `\00000a`}
 var cssPropSpell = []string{"w\u0130dth", "W\u0130DTH", "text-al\u0130gn", "color", "COLOR", "Color", "-webkit-color", "-moz-color", "mso-color", "font-family", "text-decoration", "margin", "background-image", "opacity", "nosuchprop", "text-align",
 	"width", "x-any", "x-kw", "bogus", "col\\6fr", "-webkit--moz-color", "prince-width", "", "a b", "background", "font-size", "border", "animation", "filter", "list-style", "transition", "height", "float",
